@@ -14,11 +14,64 @@ from pymongo.errors import DuplicateKeyError, OperationFailure
 
 
 class FakeCursor:
-    def __init__(self, docs):
-        self.docs = docs
+    """a pymongo cursor: options may also be given by chaining (`find().sort(...).skip(n).limit(m)`); they are applied,
+    in the order sort - skip - limit as the server does, when the cursor is first iterated"""
+    def __init__(self, docs, sort=None, skip=0, limit=0):
+        self._docs, self._sort, self._skip, self._limit = docs, sort, skip, limit
+        self._started = False
+
+    def _check(self):
+        if self._started:
+            from pymongo.errors import InvalidOperation
+            raise InvalidOperation('cannot set options after executing query')
+
+    def sort(self, key_or_list, direction=None):
+        self._check()
+        self._sort = [(key_or_list, direction if direction is not None else 1)] if isinstance(key_or_list, str) \
+            else list(key_or_list)
+        return self
+
+    def skip(self, n):
+        self._check()
+        if not isinstance(n, int):
+            raise TypeError('skip must be an integer')
+        if n < 0:
+            raise ValueError('skip must be >= 0')
+        self._skip = n
+        return self
+
+    def limit(self, n):
+        self._check()
+        if not isinstance(n, int):
+            raise TypeError('limit must be an integer')
+        self._limit = n
+        return self
+
+    def batch_size(self, n):
+        return self
+
+    def _materialise(self):
+        docs = list(self._docs)
+        if self._sort:
+            for key, direction in reversed(self._sort):
+                docs.sort(key=lambda d: _sort_key(d.get(key)), reverse=direction < 0)
+        docs = docs[self._skip:]
+        if self._limit:
+            docs = docs[:abs(self._limit)]
+        return docs
 
     def __iter__(self):
-        return iter(self.docs)
+        self._started = True
+        return iter([copy.deepcopy(d) for d in self._materialise()])
+
+    def close(self):
+        pass
+
+    def __enter__(self):
+        return self
+
+    def __exit__(self, *a):
+        return False
 
 
 def _type_rank(v):
@@ -214,16 +267,10 @@ class FakeCollection:
                 return copy.deepcopy(d)
         return None
 
-    def find(self, flt=None, limit=0, skip=0, sort=None):
+    def find(self, flt=None, projection=None, skip=0, limit=0, sort=None, **kw):
         self._maybe_fail('find')
         docs = [d for d in self.docs if _match(d, flt)]
-        if sort:
-            for key, direction in reversed(sort):
-                docs.sort(key=lambda d: _sort_key(d.get(key)), reverse=direction < 0)
-        docs = docs[skip:]
-        if limit:
-            docs = docs[:limit]
-        return FakeCursor([copy.deepcopy(d) for d in docs])
+        return FakeCursor(docs, sort=list(sort) if sort else None, skip=skip, limit=limit)
 
     def aggregate(self, pipeline):
         self._maybe_fail('aggregate')
@@ -237,9 +284,9 @@ class FakeCollection:
                 docs = [d for d in docs if _match(d, arg)]
             else:
                 raise OperationFailure('Unrecognized pipeline stage name: %s' % op)
-        return FakeCursor([copy.deepcopy(d) for d in docs])
+        return FakeCursor(docs)
 
-    def update_one(self, flt, update, upsert=False):
+    def update_one(self, flt, update, upsert=False, **kw):
         self._maybe_fail('update_one')
         for d in self.docs:
             if _match(d, flt):
@@ -255,7 +302,7 @@ class FakeCollection:
             doc.update(copy.deepcopy(update.get('$set', {})))
             self.docs.append(doc)
 
-    def replace_one(self, flt, doc):
+    def replace_one(self, flt, doc, upsert=False, **kw):
         self._maybe_fail('replace_one')
         for i, d in enumerate(self.docs):
             if _match(d, flt):
@@ -265,8 +312,13 @@ class FakeCollection:
                 new['_id'] = d['_id']
                 self.docs[i] = new
                 return
+        if upsert:
+            new = copy.deepcopy(doc)
+            if '_id' not in new and isinstance(flt, dict) and '_id' in flt:
+                new['_id'] = flt['_id']
+            self.insert_one(new)
 
-    def delete_one(self, flt):
+    def delete_one(self, flt, **kw):
         self._maybe_fail('delete_one')
         for i, d in enumerate(self.docs):
             if _match(d, flt):
@@ -288,7 +340,18 @@ class FakeCollection:
     def list_indexes(self):
         return [{'name': n, 'key': {f: 1}} for n, f in self.indexes.items()]
 
-    def count_documents(self, flt):
+    def delete_many(self, flt, **kw):
+        self._maybe_fail('delete_many')
+        self.docs = [d for d in self.docs if not _match(d, flt)]
+
+    def insert_many(self, docs, **kw):
+        for d in docs:
+            self.insert_one(d)
+
+    def estimated_document_count(self, **kw):
+        return len(self.docs)
+
+    def count_documents(self, flt, **kw):
         return len([d for d in self.docs if _match(d, flt)])
 
 
